@@ -24,6 +24,24 @@ def respell(rng, text):
             l = re.sub(r"\bi32 (\d+)\b", lambda m: "i32 u0x%X" % int(m.group(1)) if rng.random() < 0.5 else "i32 0%s" % m.group(1), l, count=1)
         if rng.random() < 0.2:
             l = re.sub(r"@([A-Za-z_][\w.]*)", lambda m: chr(64) + chr(34) + m.group(1) + chr(34), l)
+        am = re.match(r"attributes #(\d+) = \{ (.*) \}$", l)
+        if am and rng.random() < 0.6:
+            # the parser MERGES several definitions of one attribute group and drops repeated attributes: split the group in two
+            # definitions that share an attribute, and/or repeat a string attribute in an escaped spelling ("k" == "\6B")
+            attrs = re.findall(r'"[^"]*"(?:="[^"]*")?|\S+', am.group(2))
+            k = rng.random()
+            if k < 0.5 and attrs:
+                cut = rng.randint(1, len(attrs))
+                out.append("attributes #%s = { %s }" % (am.group(1), " ".join(attrs[:cut])))
+                l = "attributes #%s = { %s }" % (am.group(1), " ".join([rng.choice(attrs[:cut])] + attrs[cut:]))
+            else:
+                strs = [a for a in attrs if a.startswith('"')]
+                if strs:
+                    a = rng.choice(strs)
+                    esc = re.sub(r'"([^"\\])', lambda m: '"\\%02X' % ord(m.group(1)), a, count=1)
+                    i = attrs.index(a)
+                    attrs.insert(rng.randint(i + 1, len(attrs)), esc)      # the repeat comes AFTER the first occurrence: order is kept
+                    l = "attributes #%s = { %s }" % (am.group(1), " ".join(attrs))
         out.append(l + ("  " if rng.random() < 0.1 else ""))
     return "\n".join(out)
 
